@@ -136,7 +136,20 @@ fn kind_of(case: &J) -> KineticEnergyKind {
     }
 }
 
-fn run_with<H: Hamiltonian<WM, Point = TransformedPoint<WM>>>(
+/// replacing the transformation between two draws (as the adaptation does during warmup)
+trait Retransform {
+    fn retransform(&mut self, math: &mut WM, stds: &[f64], mean: &[f64]);
+}
+impl Retransform for TransformedHamiltonian<WM, DiagMassMatrix<WM>> {
+    fn retransform(&mut self, math: &mut WM, stds: &[f64], mean: &[f64]) {
+        self.transformation_mut().verif_set_transform(math, stds, mean);
+    }
+}
+impl Retransform for TransformedHamiltonian<WM, LowRankMassMatrix<WM>> {
+    fn retransform(&mut self, _math: &mut WM, _stds: &[f64], _mean: &[f64]) {}
+}
+
+fn run_with<H: Hamiltonian<WM, Point = TransformedPoint<WM>> + Retransform>(
     case: &J,
     mut math: WM,
     mut ham: H,
@@ -201,6 +214,14 @@ fn run_with<H: Hamiltonian<WM, Point = TransformedPoint<WM>>>(
         // momentum of draw k: rotate the scripted vector so that successive draws differ
         let m: Vec<f64> = (0..dim).map(|i| mom[(i + k as usize) % dim.max(1)]).collect();
         math.gauss_script.push_back(m);
+        if k >= 1 {
+            if let Some(rt) = case.get("retransform") {
+                let (s2, m2) = (jvf(rt, "stds"), jvf(rt, "mean"));
+                if s2.len() == dim && m2.len() == dim {
+                    ham.retransform(&mut math, &s2, &m2);
+                }
+            }
+        }
         let mut coll = LogCollector::default();
         let calls_before = rng.calls.len();
         let evals_start = log.lock().unwrap().count;
